@@ -45,15 +45,20 @@ UNIQ = {'c1': 'uniq000000001', 'c2': 'uniq000000002', 'c3': 'uniq000000003'}
 
 
 def header():
+    core.ensure_repo_on_path()
+    from treadmill import iptables
     net = ipaddress.IPv4Network(CIDR)
-    return dict(extip=EXT_IP, pool=[str(h) for h in net.hosts()], dns=dict(DNS))
+    return dict(extip=EXT_IP, pool=[str(h) for h in net.hosts()], dns=dict(DNS),
+                # the configured port ranges (iptables.py; the host firewall is built from them)
+                ranges=dict(prod=[iptables.PROD_PORT_LOW, iptables.PROD_PORT_HIGH],
+                            nonprod=[iptables.NONPROD_PORT_LOW, iptables.NONPROD_PORT_HIGH]))
 
 
 # ---------------------------------------------------------------------------
 # raw (schema level) manifests
-def raw_manifest(app='a1', eps=(), etcp=0, eudp=0, hosts=(), vring=False, shared=False):
+def raw_manifest(app='a1', eps=(), etcp=0, eudp=0, hosts=(), vring=False, shared=False, env='dev'):
     """eps: tuples (name, proto, port, infra)."""
-    raw = dict(app=APPS.get(app, app), shared=bool(shared), vring=bool(vring),
+    raw = dict(app=APPS.get(app, app), shared=bool(shared), vring=bool(vring), env=env,
                eps=[dict(name=n, proto=p, port=str(port), infra=bool(infra))
                     for n, p, port, infra in eps],
                etcp=int(etcp), eudp=int(eudp))
@@ -97,7 +102,8 @@ def gen_raw(rng, app):
         eps.append((n, 'udp' if p == 'tcp' else 'tcp', port, rng.random() < 0.5))
     hosts = rng.sample(sorted(DNS), rng.randrange(0, 3))
     return raw_manifest(app, eps, rng.randrange(0, 3), rng.randrange(0, 3), hosts,
-                        vring=rng.random() < 0.5, shared=rng.random() < 0.1)
+                        vring=rng.random() < 0.5, shared=rng.random() < 0.1,
+                        env=rng.choice(['dev', 'dev', 'qa', 'uat', 'prod']))
 
 
 def submitted_yaml(raw):
@@ -112,7 +118,7 @@ def submitted_yaml(raw):
         if e['infra']:
             d['type'] = 'infra'
         eps.append(d)
-    m = dict(proid='proid', environment='dev', cpu='10%', memory='100M', disk='100M',
+    m = dict(proid='proid', environment=raw.get('env', 'dev'), cpu='10%', memory='100M', disk='100M',
              task=raw['app'].split('#')[1],
              services=[dict(name='web', command='/bin/true', restart=dict(limit=5, interval=60))])
     if eps:
@@ -326,18 +332,31 @@ class Node:
         random.seed(seed)
         self.sockets[c] = runtime.allocate_network_ports(EXT_IP, manifest)
         app = runtime.save_app(manifest, container_dir)
+        # the sockets as they are once the manifest is saved: open and bound?
+        socks = [['tcp' if s.type == socket.SOCK_STREAM else 'udp', str(s.getsockname()[1])]
+                 for s in self.sockets[c] if s.fileno() != -1]
         if not app.shared_network:
             with mock.patch('os.getpid', return_value=int(PIDS[c])):
                 _run._unshare_network(tm_env, container_dir, app)   # pylint: disable=W0212
+        if app.shared_network:
+            # run(): "close sockets before starting the supervisor, as these ports will
+            # be used by container apps"
+            for s in self.sockets.pop(c):
+                s.close()
         # ---- what was registered, read back from state.json ----
-        return 'ok', self.registered(c)
+        rm = self.registered(c)
+        rm['socks'] = socks
+        return 'ok', rm
 
     def registered(self, c):
         state = json.load(open(os.path.join(self.tm_env.apps_dir, self.unique[c], 'data',
                                             'state.json')))
         return dict(
             app=state['name'], shared=bool(state['shared_network']),
-            vring=bool(state['vring'].get('cells')), pid=PIDS[c],
+            vring=bool(state['vring'].get('cells')), pid=PIDS[c], env=state['environment'],
+            num={str(p): int(p) for p in
+                 [e['real_port'] for e in state['endpoints']] +
+                 state['ephemeral_ports']['tcp'] + state['ephemeral_ports']['udp']},
             eps=[dict(name=e['name'], proto=e['proto'], port=str(e['port']),
                       real=str(e['real_port']), infra=(e.get('type') == 'infra'))
                  for e in state['endpoints']],
@@ -404,7 +423,8 @@ def replay(history, containers=('c1', 'c2', 'c3'), seed=1):
                 if step[0] == 'Start':
                     res, rm = node.start(step[1], step[2], seed * 1000 + k)
                     lines.append(dict(ev='Start', c=step[1], res=res, exc=node.excname,
-                                      raw=step[2], rm=rm, post=node.project()))
+                                      raw=step[2], socks=rm.pop('socks', []), rm=rm,
+                                      post=node.project()))
                 elif step[0] == 'FinishFail':
                     res, hit = node.finish_fail(step[1], int(step[2]))
                     # no call to fail (fewer than k): it simply was a finish
@@ -439,8 +459,22 @@ def _tlav(v):
     return _tla(v)
 
 
-def mc_files(containers, spaces, max_finish=2, max_fail=1, defects=(), tag='',
-             invariants=('InvClauses', 'InvState', 'InvAllGone')):
+PORT_POOLS = dict(prod=['32768', '32769', '32770'], nonprod=['40960', '40961', '40962', '40963'])
+BUSY = ['40961']
+
+
+def ports_space():
+    """A small manifest space for the port allocation focus: both range classes,
+    port 0 and explicit ports, both protocols, ephemeral ports."""
+    return [raw_manifest('a1', (('http', 'tcp', 0, False), ('dns', 'udp', 53, True)), 1, 0, env='dev'),
+            raw_manifest('a1', (('http', 'tcp', 8000, False), ('ssh', 'tcp', 0, True)), 0, 1, env='prod'),
+            raw_manifest('a2', (('web', 'tcp', 0, False), ('web', 'udp', 0, False)), 1, 1, env='qa'),
+            raw_manifest('a2', (), 2, 2, env='uat'),
+            raw_manifest('a2', (('http', 'tcp', 0, False),), 1, 0, env='dev', shared=True)]
+
+
+def mc_files(containers, spaces, max_finish=2, max_fail=1, defects=(), tag='', alloc_any=False,
+             invariants=('InvClauses', 'InvState', 'InvAllGone', 'InvPorts')):
     """spaces: container -> list of raw manifests."""
     mod = 'MC_NetReg%s' % tag
     pool = header()['pool'][:len(containers)]     # the choice of vip only matters up to symmetry
@@ -456,12 +490,15 @@ def mc_files(containers, spaces, max_finish=2, max_fail=1, defects=(), tag='',
         'McRealPorts == %s' % fun({c: _tla(ports[c]) for c in containers}),
         'McPids == %s' % fun({c: json.dumps(PIDS[c]) for c in containers}),
         'McDns == %s' % fun({h: json.dumps(ip) for h, ip in DNS.items()}),
+        'McPortPool == %s' % fun({k: _tla(set(v)) for k, v in PORT_POOLS.items()}),
+        'McBusy == %s' % _tla(set(BUSY)),
         'McDefects == %s' % _tla(set(defects)), '====', ''])
     cfg = ['INIT Init', 'NEXT Next', 'CHECK_DEADLOCK FALSE', 'CONSTANTS',
            ' Containers <- McContainers', ' Pool <- McPool', ' ExtIp = "%s"' % EXT_IP,
            ' RawSpace <- McRawSpace', ' RealPorts <- McRealPorts', ' Pids <- McPids',
            ' Dns <- McDns', ' Defects <- McDefects', ' MaxFinish = %d' % max_finish,
-           ' MaxFail = %d' % max_fail]
+           ' MaxFail = %d' % max_fail, ' AllocAny = %s' % ('TRUE' if alloc_any else 'FALSE'),
+           ' PortPool <- McPortPool', ' Busy <- McBusy']
     cfg += ['INVARIANT %s' % i for i in invariants]
     return mod, mod + '.cfg', {mod + '.tla': text, mod + '.cfg': '\n'.join(cfg) + '\n'}
 
